@@ -11,7 +11,7 @@ Definition wrank (w : wpos) : nat :=
   end.
 Definition rank (x : phase) : nat :=
   match x with
-  | PUpd false => 30 | PUpd true => 29
+  | PUpd None => 30 | PUpd (Some _) => 29
   | PLoad L0 => 28 | PLoad LS => 27 | PLoad LO => 26 | PLoad LL => 25 | PLoad LR => 24
   | PComp => 23 | PStart => 22 | PSave w => wrank w | PAck => 11 | PRel _ => 10 | PDone => 0 | PFail => 0
   end.
@@ -67,7 +67,7 @@ Proof.
   intros s p s' r r' H Hp Hp'. unfold step in H. destruct (step_core s p) as [| |s1] eqn:Hc; [discriminate| |].
   - rewrite Hp in H. destruct (budget r) as [|b] eqn:Hb.
     + inversion H; subst; clear H. unfold timeout_step in *. unfold measure.
-      destruct (blk_phase _ _ _ Hc Hp) as [Hph|[Hph|Hph]]; rewrite Hph in *; cbn in Hp' |- *; rewrite updp_same in Hp'; inversion Hp'; subst; cbn.
+      destruct (blk_phase _ _ _ Hc Hp) as [[iu Hph]|[Hph|Hph]]; rewrite Hph in *; cbn in Hp' |- *; rewrite updp_same in Hp'; inversion Hp'; subst; cbn.
       * split; [reflexivity|]. nia.
       * split; [reflexivity|]. nia.
       * split; [reflexivity|]. rewrite after_save_budget. cbn. pose proof (rank_after_save (emit (with_budget (with_saved (with_w r (mkw (wcontent (pw r)) (wsize (pw r)) (wbuf (pw r)) None false)) (Some false)) (polls s)) "!save_skipped")). nia.
@@ -81,8 +81,8 @@ Lemma step_progress : forall s p r, procs s p = Some r -> finished r = false -> 
 Proof.
   intros s p r Hp Hf. unfold step. destruct (step_core s p) as [| |s1] eqn:Hc.
   - exfalso. unfold step_core in Hc. rewrite Hp in Hc. unfold finished in Hf.
-    destruct (ph r) as [[|]|[| | | |]| | |w| |ok| |]; try discriminate Hf; try discriminate Hc.
-    + destruct (names (sfs s) Side); [destruct (try_lock_ex (sfs s) i p)|]; discriminate Hc.
+    destruct (ph r) as [[iu|]|[| | | |]| | |w| |ok| |]; try discriminate Hf; try discriminate Hc.
+    + destruct (try_lock_ex (sfs s) iu p); discriminate Hc.
     + destruct (names (sfs s) Target); discriminate Hc.
     + destruct (open_existing (sfs s) Target); discriminate Hc.
     + destruct (rh r); [destruct (try_lock_sh (sfs s) i)|]; discriminate Hc.
